@@ -321,9 +321,11 @@ NOT_APPLICABLE = {}
 
 MANIFEST_TEXT = {
     "C11": {
-        "text": "The laws of the property (shift by zero, additivity, down-after-up, failure exactly on unbound variables, opening an absent "
-                "variable, free-variable membership) are Coq theorems over the whole term language including multi-definition groups, for all "
-                "cutoffs/amounts/indices, axiom-free. The model is a hand-written mirror of de_bruijn.rs/free_variables tied to the code by an "
+        "text": "The statement itself is a theorem: opening agrees with capture-avoiding substitution on named terms (open_is_substitution, "
+                "at any binder depth, under the variable convention) and shifting with extending the naming context (shift_is_weakening), "
+                "against a named-term specification (Spec/Named.v). The laws of the property (shift by zero, additivity, down-after-up, failure "
+                "exactly on unbound variables, opening an absent variable, free-variable membership) are Coq theorems over the whole term "
+                "language including multi-definition groups, for all cutoffs/amounts/indices, axiom-free. The model is a hand-written mirror of de_bruijn.rs/free_variables tied to the code by an "
                 "exhaustive-small plus random correspondence run and by evaluating the same laws on the implementation's results.",
         "design_ref": "DESIGN.md section 4, C11",
         "note": "Trusted: Coq kernel, extraction (ExtrOcamlBasic), OCaml driver, Rust harness glue. The model/code tie is differential "
@@ -493,9 +495,10 @@ MANIFEST_TEXT = {
                 "acyclic; unify(t,t) on hole-free t must succeed (mirror: convb_refl). Hole-punched pairs at every position and depth, "
                 "occurs-check (direct and through cells solved earlier) and scope-escape configurations. Proved of Model B (compared with "
                 "the implementation's verdict and store on every case): unification and type checking only extend the store - a recorded "
-                "solution is never changed - and the cell unify assigns is unsolved. D9 is a recorded finding.",
+                "solution is never changed - the cell unify assigns is unsolved, and the store stays acyclic (no hole is ever solved by a "
+                "term containing itself: unifyB_acyclic, tcB_acyclic, occursB_sound). D9 is a recorded finding.",
         "design_ref": "DESIGN.md section 4, C12",
-        "note": "Consistency (store only grows) is a theorem of Model B; acyclicity and scope are validated on the implementation's own store.",
+        "note": "Consistency (store only grows) and acyclicity are theorems of Model B; scope is validated on the implementation's own store.",
         "technique": "translation validation of unify results with a Coq-verified conversion test + store scope/acyclicity checks on hole-punched pairs",
     },
     "C18": {
